@@ -17,7 +17,8 @@ LEVEL_TEXT = ('Decides clauses C14-a/b: CORSProc::bite sets Access-Control-Allow
               'advertises the registered methods plus HEAD iff GET plus OPTIONS, answers 501 + Allow-Methods when the requested method is in that list, 400 + Allow-'
               'Methods when not, and 404 without Access-Control-Request-Method; register_handlers derives the list from exactly the filled handler slots. The '
               'requested preflight method is looked up by whole-name membership in the list of registered methods (not by a text search in their concatenation). '
-              'Decides these clauses, not the advertised set under nested/merged applications.')
+              'Every value-taking builder method of CORS stores `Some(<its parameter>)` unconditionally (no setting can be lost in a conversion). Decides these '
+              'clauses, not the advertised set under nested/merged applications.')
 
 
 def run(ck, progs):
@@ -27,6 +28,7 @@ def run(ck, progs):
         ck.config = cfg
         ck.guard("C14-a DECISION cors", lambda: c14a(ck, prog))
         ck.guard("C14-b DECISION options", lambda: c14b(ck, prog))
+        ck.guard("C14-c PAIR builder keeps the policy", lambda: c14c(ck, prog))
     ck.config = None
 
 
@@ -223,3 +225,29 @@ def c14b(ck, prog):
         got[v] = sorted(conds)
     ok = set(got) == {"GET", "PUT", "POST", "PATCH", "DELETE"} and all(len(v) == 1 and re.fullmatch(r"is_some\(arg2\.%s\)" % k, v[0]) for k, v in got.items())
     ck.ob(R, "register:list-from-slots", ok, rh.loc(None), "" if ok else "the advertised method list is built as %r, expected \"M\" exactly when handlers.M is filled" % got, how="push(\"M\") iff handlers.M.is_some(), M in GET PUT POST PATCH DELETE")
+
+
+def c14c(ck, prog):
+    """`the configured exposed headers ... the configured or echoed request headers and the configured max-age`: what the
+    preflight advertises is read from the policy fields, so each builder method must store what it was given -- `Some(value)`
+    built from its parameter, unconditionally (a conversion that can answer None, e.g. NonZeroU32::new(0), drops a setting)."""
+    R = "C14-c PAIR builder keeps the policy"
+    n = 0
+    for f in prog.methods(r"^ohkami::fang::builtin::cors::CORS$", r".*"):
+        if f.name in ("new",) or f.argc < 2:
+            continue
+        stores = [(bi, st) for bi in sorted(f.live_blocks()) for st in f.blocks[bi]["st"]
+                  if st["k"] == "=" and st["p"][0] == 1 and st["p"][1] and st["p"][1][-1][0] == "f"]
+        mine = [(bi, st) for bi, st in stores if st["p"][1][-1][2] == f.name]
+        n += 1
+        ok = len(mine) == 1
+        why = "%d store(s) to the field `%s`" % (len(mine), f.name)
+        if ok:
+            bi, st = mine[0]
+            d = decision.describe_deep(f, st["r"][1], 4) if st["r"][0] == "use" else (("%s{%s}" % (st["r"][1].get("variant"), ",".join(decision.describe_deep(f, o, 3) for o in st["r"][2]))) if st["r"][0] == "agg" else st["r"][0])
+            cond = [fa for fa in guards.facts_at(f, prog, bi) if fa.kind in ("cmp", "boolcall", "variant", "int", "boolplace")]
+            ok = re.fullmatch(r"Some\{(arg2|\w+\(arg2(,const '[^']*')?\))\}", d) is not None and not cond
+            why = "it stores `%s`%s" % (d[:60], " under %d condition(s)" % len(cond) if cond else "")
+        ck.ob(R, "CORS::%s" % f.name, ok, f.loc(None), "" if ok else "CORS::%s does not keep the setting it is given (%s): a configured value can be lost (`MaxAge(0)` = `do not cache preflights` would no longer be advertised)" % (f.name, why),
+              how="self.%s = Some(<the parameter>) unconditionally" % f.name)
+    ck.floor(R, "value-taking CORS builder methods", n, 3)
